@@ -27,8 +27,9 @@ const A_BIG: &[&str] = &[" ", "a", "bc", "-", "\n", "é", "你", "中", "d-e", "
 const A_ADVERSARIAL: &[&str] = &[" ", "a", "-", "\n", "\r", "\t", "é", "你", "中", "\u{ad}", "\u{a0}", "\u{3000}", "\u{200b}", "\u{301}", "😂", "\x1b", "[", "]", "m", "~", "\x07", "\\"];
 const A_ANSI: &[&str] = &["a", " ", "你", "\u{301}", "\x1b[31m", "\x1b[0m", "\x1b[1~", "\x1b[@", "\x1b[?", "\x1b]8;;x\x1b\\", "\x1b]0;t\x07", "\x1b[", "\x1b", "m", "\\", "[", "\x7f", "?"];
 const A_WORDS: &[&str] = &[" ", "a", "b", "-", "\t", "\u{a0}", "\u{200b}", "\u{2060}", "你", "中", "😂", "😭", "\u{ad}", "\n", "\x1b[31m", "\x1b[0m", ")", "é", "\u{3000}", "\x1b]8;;x\x1b\\", "\x1b]0;t\x07"];
-const A_WORD: &[&str] = &["a", "b", "-", "1", "你", "\u{301}", "é", "\x1b[31m", "\x1b[0m", "\x1b[1~", "😂", "\u{200b}"];
-const A_INPLACE: &[&str] = &[" ", "a", "bc", "\n", "é", "你", "\r", "\t"];
+const A_WORD: &[&str] = &["a", "b", "-", "1", "你", "\u{301}", "é", "\x1b[31m", "\x1b[0m", "\x1b[1~", "😂", "\u{200b}", "\t"];
+/// incl. a bare ESC (which swallows the following character, possibly a space, when measured on the whole line) and a CSI sequence
+const A_INPLACE: &[&str] = &[" ", "a", "bc", "\n", "é", "你", "\r", "\t", "\x1b", "\x1b[31m"];
 const A_DEDENT: &[&str] = &[" ", "\t", "a", "\n", "\r\n", "b", "\u{3000}"];
 const A_INDENT: &[&str] = &[" ", "\t", "a", "\n", "\r", "é", "\u{3000}"];
 const A_UNFILL: &[&str] = &[" ", "a", "\n", "\r\n", ">", "-", "*", "é", "\r", "/"];
@@ -322,12 +323,22 @@ fn colour_cases(ctx: &mut Ctx, maxwords: u32) {
         v
     };
     let ng = grid.len() as u64;
-    let n = ns * 3u64.pow(maxwords) * widths.len() as u64 * ng;
-    let scope = format!("[{}] every sentence of 1..={} words from {:?}, each word plain / SGR-coloured / hyperlinked (sequences touch the word), widths {:?}, {} option combinations (no hyphen splitter)", FLAVOR, maxwords, A_COLOUR_WORDS, widths, ng);
+    // words are joined by one of JOINERS and the text may end in one of SUFFIXES (whitespace that only the byte-length
+    // shortcut or the slow path would trim differently: the escape bytes decide which of the two paths runs)
+    const JOINERS: &[&str] = &[" ", "  ", "\n"];
+    const SUFFIXES: &[&str] = &["", " ", "\t", "\r", "\u{3000}"];
+    let nj = JOINERS.len() as u64;
+    let nx = SUFFIXES.len() as u64;
+    let n = ns * 3u64.pow(maxwords) * widths.len() as u64 * ng * nj * nx;
+    let scope = format!("[{}] every sentence of 1..={} words from {:?}, each word plain / SGR-coloured / hyperlinked (sequences touch the word), joined by one of {:?}, ending in one of {:?}, widths {:?}, {} option combinations (no hyphen splitter)", FLAVOR, maxwords, A_COLOUR_WORDS, JOINERS, SUFFIXES, widths, ng);
     let r = run_indexed("C13.wrap.ansi_transparent", "strip(wrap(coloured)) == wrap(strip(coloured)); no sequence cut or dropped", &scope, n, true,
         |mut i| {
             let gi = i % ng;
             i /= ng;
+            let joiner = JOINERS[(i % nj) as usize];
+            i /= nj;
+            let suffix = SUFFIXES[(i % nx) as usize];
+            i /= nx;
             let w = widths[(i % widths.len() as u64) as usize];
             i /= widths.len() as u64;
             let mut col = i % 3u64.pow(maxwords);
@@ -359,7 +370,7 @@ fn colour_cases(ctx: &mut Ctx, maxwords: u32) {
             }
             let mut o = grid[gi as usize].clone();
             o.width = w;
-            Some(TextCase { text: parts.join(" "), opts: o })
+            Some(TextCase { text: format!("{}{}", parts.join(joiner), suffix), opts: o })
         },
         props_wrap::c13_ansi);
     ctx.reports.push(r);
